@@ -3,7 +3,7 @@ CONSTANTS
   Sigs = {1, 2, 3}
   Events = {1, 2, 3, 4, 5, 6, 7, 8, 9, 10}
   Configs = {}
-  Kinds = {"info", "plain", "ign", "dfl"}
+  Kinds = {"info", "plain", "ign", "dfl", "inforh", "plainrh"}
   MaxRaises = 0
   Redundant = TRUE
   Bug = "none"
